@@ -424,25 +424,23 @@ defvjp(anp.tile, grad_tile)
 
 
 def grad_kron(argnum, ans, orig_A, orig_B):
-    # kron has different promotion rules than dot. the reshapes are necessary if
-    # and only if (1) orig_B is 1D or (2) orig_A and/or orig_B are 0D
+    # kron prepends ones to the shape of the operand with fewer dimensions, then
+    # ans[i0 * b0 + j0, i1 * b1 + j1, ...] = A[i0, i1, ...] * B[j0, j1, ...]
     orig_A_shape = anp.shape(orig_A)
     orig_B_shape = anp.shape(orig_B)
+    ndim = max(anp.ndim(orig_A), anp.ndim(orig_B))
+    A_shape = (1,) * (ndim - anp.ndim(orig_A)) + orig_A_shape
+    B_shape = (1,) * (ndim - anp.ndim(orig_B)) + orig_B_shape
 
     def vjp(G):
-        A, B = anp.atleast_2d(orig_A), anp.atleast_2d(orig_B)
-        shape = list(A.shape + B.shape)
-        n = anp.ndim(A)
-        shape[n - 1], shape[n] = shape[n], shape[n - 1]
-        reshaped_G = anp.swapaxes(anp.reshape(G, shape), n - 1, n)
+        A, B = anp.reshape(orig_A, A_shape), anp.reshape(orig_B, B_shape)
+        interleaved = [size for sizes in zip(A_shape, B_shape) for size in sizes]
+        A_axes_first = list(range(0, 2 * ndim, 2)) + list(range(1, 2 * ndim, 2))
+        reshaped_G = anp.transpose(anp.reshape(G, interleaved), A_axes_first)
         if argnum == 0:
-            return match_complex(
-                orig_A, anp.reshape(anp.tensordot(reshaped_G, B, axes=anp.ndim(B)), orig_A_shape)
-            )
+            return match_complex(orig_A, anp.reshape(anp.tensordot(reshaped_G, B, axes=ndim), orig_A_shape))
         else:
-            return match_complex(
-                orig_B, anp.reshape(anp.tensordot(A, reshaped_G, axes=anp.ndim(A)), orig_B_shape)
-            )
+            return match_complex(orig_B, anp.reshape(anp.tensordot(A, reshaped_G, axes=ndim), orig_B_shape))
 
     return vjp
 
